@@ -307,7 +307,9 @@ def run(ctx):
         fs = set()
         for t, lab in vg.guards(n.id, exc=False):
             fs |= facts(t, lab == "true")
-        in_dispatch = any(tv and re.fullmatch(r"\w+ (==|in) .+", a) and not a.startswith(("self.tag", valp + " ")) for a, tv in fs)
+        # inside the datatype dispatch chain: some test of the dispatch subject (either outcome: the final `else` of the chain has
+        # only failed ones) guards it
+        in_dispatch = any(re.fullmatch(r"\w+ (==|in) .+", a) and not a.startswith(("self.tag", valp + " ")) for a, tv in fs)
         before_dispatch = any(m.kind == "stmt" and isinstance(m.ast, ast.Assign) and unparse(m.ast.targets[0]) in fam6 and isinstance(m.ast.value, ast.Call)
                               and "_validate_value_" in unparse(m.ast.value.func) and vg.reaches(n.id, m.id, exc=False) for m in vg.nodes)
         if isinstance(v, ast.Constant) and v.value is None and (in_dispatch or before_dispatch):
@@ -661,7 +663,10 @@ def number_options(ctx, rule, repo):
     for opt, needles in want.items():
         hit = False
         for n in g.nodes:
-            if n.kind == "stmt" and isinstance(n.ast, ast.Raise):
+            # a rejecting exit: a raise (turned into the error text by the handler) or the error text returned directly
+            rejecting = n.kind == "stmt" and (isinstance(n.ast, ast.Raise) or (isinstance(n.ast, ast.Return) and (
+                isinstance(n.ast.value, ast.JoinedStr) or (isinstance(n.ast.value, ast.Constant) and isinstance(n.ast.value.value, str) and n.ast.value.value))))
+            if rejecting:
                 for t, lab in g.guards(n.id, exc=False):
                     if lab == "true" and (opt, True) in facts(t, True) and all(nd in unparse(t) for nd in needles):
                         hit = True
